@@ -1,11 +1,13 @@
 package engine
 
 import (
+	"encoding/hex"
 	"fmt"
 	"math/rand/v2"
 	"sort"
 	"strings"
 	"time"
+	"unicode/utf8"
 
 	"github.com/bartventer/httpcache/verifsim/kit"
 )
@@ -64,7 +66,11 @@ func genGrowth(seed uint64, thorough bool) *Scenario {
 			for _, f := range []string{"X-A", "X-B", "Accept-Encoding", "X-Tenant"} {
 				if g.chance(50) {
 					ms := selTable[f]
-					h = append(h, [2]string{f, ms[g.IntN(2)][0]})
+					v := ms[g.IntN(min(3, len(ms)-1))][0]
+					if !utf8.ValidString(v) {
+						v = "hex:" + hex.EncodeToString([]byte(v)) // see selHeaders
+					}
+					h = append(h, [2]string{f, v})
 				}
 			}
 			alpha = append(alpha, letter{res: i, hdr: h})
